@@ -1401,7 +1401,10 @@ impl FromBitStream for SubframeHeader {
             type_: r.parse()?,
             wasted_bps: match r.read_bit()? {
                 false => 0,
-                true => r.read_unary::<1>()? + 1,
+                true => r
+                    .read_unary::<1>()?
+                    .checked_add(1)
+                    .ok_or(Error::ExcessiveWastedBits)?,
             },
         })
     }
